@@ -881,10 +881,11 @@ fn cmp_cov(cov: &[f64], se: &[f64], disp: f64, inv: &[f64], p: usize, rel: f64) 
 }
 
 pub fn check_stderr(ctx: &mut Ctx, c: &Case) -> R {
-    if c.alpha != 0.0 {
-        return Ok(());
-    }
-    let sub = format!("stderr/{}", fam_name(c.fam));
+    // The statement says "dispersion × inverse Fisher information": the Fisher information XᵀŴX does not
+    // contain the penalty, so for α > 0 the reference is still the unpenalised information at the returned
+    // coefficients (a stored X'WX + αI makes every standard error too small). Ridge fits get their own
+    // sub-check and signature.
+    let sub = format!("stderr/{}{}", fam_name(c.fam), if c.alpha > 0.0 { "/ridge" } else { "" });
     let f = match prelude(ctx, &sub, "stderr", c)? {
         Some(f) => f,
         None => return Ok(()),
@@ -967,7 +968,9 @@ pub fn check_stderr(ctx: &mut Ctx, c: &Case) -> R {
             l2 = l2.max(s.iter().zip(xi).map(|(a, b)| a * b).sum::<f64>());
         }
         let mut m = (l2 * cert_bound(c, &f.at, &f.coef)).sqrt();
-        if c.w.is_none() {
+        // (the lag step δ_k has ‖δ_k‖_H² ≤ B with H = I + αI₀ ≽ I, and x_iᵀH⁻¹x_i ≤ x_iᵀI⁻¹x_i = L², so the
+        // first bound also holds for ridge fits; the quadratic-convergence bound needs α = 0)
+        if c.w.is_none() && c.alpha == 0.0 {
             m = m.min(8.0 * l2 * c.tol * f.at.dev_u.max(1.0));
         }
         rel += m.exp_m1();
@@ -1205,6 +1208,11 @@ alpha in {0,0.1,1,10}; tolerance log-uniform [1e-12,1e-9] (70%) or [1e-8,1e-5] (
     for fam in 0u8..6 {
         let s = Spec::new(Some(fam), AlphaSet::Zero);
         ctx.run_prop_par(&format!("stderr/{}", fam_name(fam)), n_se, th, || strat(s), check_stderr);
+    }
+    // (v) for ridge fits: same reference (unpenalised Fisher information at the returned coefficients)
+    for fam in 0u8..6 {
+        let s = Spec::new(Some(fam), AlphaSet::Positive);
+        ctx.run_prop_par(&format!("stderr/{}/ridge", fam_name(fam)), n_se / 2, th, || strat(s), check_stderr);
     }
     // (vi)
     let mut s = Spec::new(None, AlphaSet::Any);
